@@ -6,8 +6,8 @@
   correspondence engine compares with the real handlers on every DeliverTx of every generated
   history (decoded pre-state + operation -> result class + post-state).
 
-  Vocabulary (Model.lean): `step env s tx` is one DeliverTx (handler, then fee step; a failure
-  leaves the state untouched); `run s evs` folds a history of transactions and block commits;
+  Vocabulary (Model.lean): `step env s tx` is one DeliverTx (Validate, handler, fee step; a failure
+  anywhere leaves the state untouched); `Env.payer` is the address of the key that signed; `run s evs` folds a history of transactions and block commits;
   `St.recs` is the registry a reader sees, `St.tree` the names whose key is in the committed tree
   (what `IterateSubDomain` can enumerate); `RegInv` says stored names are valid and every sub-name
   carries its parent's owner and expiry; `Auth env s tx n` lists the four entitlements to change
@@ -29,22 +29,56 @@ open OLP OLP.Ons
 
 def opts : Opts := ⟨1000, 10, ["ol"]⟩
 
-/-- block `h`: header height `h`, state version `h - 1`; fee 3 per gas unit, 2 units used -/
+/-- block `h`: header height `h`, state version `h - 1`; fee 3 per gas unit, 2 units used; signed
+    (validly) by `payer`; currencies OLT (chain and fee currency) and VT -/
 def envAt (h : Int) (payer : Addr) : Env :=
-  { height := h, version := h - 1, opts := opts, feePrice := 3, fee := .used 2, payer := payer }
+  { height := h, version := h - 1, opts := opts, feePrice := 3, fee := .used 2, payer := payer,
+    sigValid := true, minFee := 1, olt := "OLT", currencies := ["OLT", "VT"] }
 
-def genesis : St := { St.empty with bals := [("aa", 100000), ("bb", 100000), ("cc", 100000)] }
+def genesis : St :=
+  { St.empty with bals := [(("aa", "OLT"), 100000), (("bb", "OLT"), 100000), (("cc", "OLT"), 100000), (("bb", "VT"), 500)] }
 
 def foo : Name := ["foo", "ol"]
 def xfoo : Name := ["x", "foo", "ol"]
 
 /-- aa registers foo.ol for 50 blocks, puts it on sale for 200, creates x.foo.ol (each in its own block) -/
 def setup : List Ev :=
-  [ .tx (envAt 1 "aa") (.create "aa" "" foo "" true 1500), .commit,
-    .tx (envAt 2 "aa") (.sale "aa" foo 200 false), .commit,
-    .tx (envAt 3 "aa") (.create "aa" "cc" xfoo "" true 1001), .commit ]
+  [ .tx (envAt 1 "aa") (.create "aa" "" foo "" true 1500 "OLT"), .commit,
+    .tx (envAt 2 "aa") (.sale "aa" foo 200 "OLT" false), .commit,
+    .tx (envAt 3 "aa") (.create "aa" "cc" xfoo "" true 1001 "OLT"), .commit ]
 
 def sOnSale : St := run genesis setup
+
+/-! ## 0. Only validated transactions execute (DeliverTx runs `Validate` first) -/
+
+/-- a transaction that executes was signed, validly, by the key whose address is its signer field,
+    offers at least the minimum fee price, pays for the name in the chain currency (create, sell,
+    purchase, renew) and — except for send — names a well-formed domain -/
+theorem executed_tx_is_validated (env : Env) (s s' : St) (tx : Tx) (h : step env s tx = (.ok, s')) :
+    env.payer = tx.signer ∧ env.sigValid = true ∧ env.minFee ≤ env.feePrice ∧
+    (∀ c, tx.payCur = some c → c = env.olt) ∧
+    ((∀ f a c, tx ≠ .send f tx.name a c) → validName tx.name = true) := by
+  obtain ⟨hv, _⟩ := step_ok h
+  obtain ⟨h1, h2, h3, hk⟩ := validate_ok hv
+  exact ⟨h1, h2, h3, validateKind_ok hk⟩
+
+/-- a forged owner field, a bad signature, a payment in another currency, an ill-formed name -/
+example : (step (envAt 4 "bb") sOnSale (.update "aa" "bb" foo true "" true)).1 = .fail .vSigner ∧
+    (step { envAt 4 "aa" with sigValid := false } sOnSale (.update "aa" "bb" foo true "" true)).1 = .fail .vSignature ∧
+    (step (envAt 5 "bb") sOnSale (.purchase "bb" "bb" foo 350 "VT")).1 = .fail .vBadAmount ∧
+    (step (envAt 5 "bb") sOnSale (.create "bb" "" ["no_good", "ol"] "" true 1010 "OLT")).1 = .fail .vBadName := by decide
+/-- send may use another registered currency -/
+example : (step (envAt 5 "bb") sOnSale (.send "bb" xfoo 70 "VT")).1 = .ok ∧
+    bal (step (envAt 5 "bb") sOnSale (.send "bb" xfoo 70 "VT")).2.bals ("cc", "VT") = 70 := by decide
+
+/-- hence every change of a record carries a valid signature of the transaction's signer field -/
+theorem changes_need_valid_signature (env : Env) (s : St) (tx : Tx) (n : Name)
+    (hch : alookup n (step env s tx).2.recs ≠ alookup n s.recs) : env.payer = tx.signer ∧ env.sigValid = true := by
+  by_cases hok : (step env s tx).1 = .ok
+  · obtain ⟨hv, _⟩ := step_ok (step_ok_intro hok)
+    exact ⟨(validate_ok hv).1, (validate_ok hv).2.1⟩
+  · rw [step_fail hok] at hch
+    exact absurd rfl hch
 
 /-! ## 1. A name has at most one owner -/
 
@@ -58,19 +92,19 @@ example : (akeys (run genesis setup).recs).Nodup ∧ (run genesis setup).recs.le
 /-- a successful create found the name absent and touched no other record: an existing name
     (expired or not) is never handed out a second time by create -/
 theorem create_needs_absent_name (env : Env) (s s' : St) (o b : Addr) (n : Name) (u : String) (uo : Bool)
-    (p : Int) (h : step env s (.create o b n u uo p) = (.ok, s')) :
+    (p : Int) (c : Cur) (h : step env s (.create o b n u uo p c) = (.ok, s')) :
     alookup n s.recs = none ∧ (∃ d, alookup n s'.recs = some d ∧ d.owner = o) ∧
     ∀ k, k ≠ n → alookup k s'.recs = alookup k s.recs := by
-  obtain ⟨s1, h1, h2⟩ := step_ok h
+  obtain ⟨hv, s1, h1, h2⟩ := step_ok h
   obtain ⟨_, _, _, _, hfr, _⟩ := feeStep_ok h2
   obtain ⟨_, habs, _, _, _, _, _, d, hrecs, hown, _⟩ := runCreate_ok h1
   refine ⟨habs, ⟨d, by rw [hfr, hrecs, alookup_upsert_self], hown⟩, fun k hk => ?_⟩
   rw [hfr, hrecs, alookup_upsert_ne _ _ _ _ hk]
 
 /-- (the hypothesis `step env s tx = (.ok, s')` of the theorems below is what a successful DeliverTx gives) -/
-example : ∃ s', step (envAt 4 "bb") sOnSale (.create "bb" "" ["bar", "ol"] "" true 1010) = (.ok, s') :=
+example : ∃ s', step (envAt 4 "bb") sOnSale (.create "bb" "" ["bar", "ol"] "" true 1010 "OLT") = (.ok, s') :=
   ⟨_, step_ok_intro (by decide)⟩
-example : (step (envAt 4 "bb") sOnSale (.create "bb" "" foo "" true 1010)).1 = .fail .exists_ := by decide
+example : (step (envAt 4 "bb") sOnSale (.create "bb" "" foo "" true 1010 "OLT")).1 = .fail .exists_ := by decide
 
 /-
   FULL STATEMENT (false of the code): in every reachable state a sub-name has the owner and the
@@ -113,10 +147,10 @@ example : RegInv sOnSale := subs_follow_parent_partial genesis (genesis_inv gene
 /-- KF-C20-1 (witness = corpus/C20/kf1_pending_sub_survives_purchase.hist): aa creates x.foo.ol and,
     in the same block, bb buys foo.ol -/
 def kf1 : List Ev :=
-  [ .tx (envAt 1 "aa") (.create "aa" "" foo "" true 1500), .commit,
-    .tx (envAt 2 "aa") (.sale "aa" foo 200 false), .commit,
-    .tx (envAt 3 "aa") (.create "aa" "" xfoo "" true 1001),
-    .tx (envAt 3 "bb") (.purchase "bb" "bb" foo 300), .commit ]
+  [ .tx (envAt 1 "aa") (.create "aa" "" foo "" true 1500 "OLT"), .commit,
+    .tx (envAt 2 "aa") (.sale "aa" foo 200 "OLT" false), .commit,
+    .tx (envAt 3 "aa") (.create "aa" "" xfoo "" true 1001 "OLT"),
+    .tx (envAt 3 "bb") (.purchase "bb" "bb" foo 300 "OLT"), .commit ]
 
 /-- after the purchase foo.ol belongs to bb while x.foo.ol still exists and belongs to aa -/
 theorem pending_sub_survives_purchase :
@@ -142,9 +176,9 @@ theorem sub_owner_follows_parent_fails : ¬ (∀ s0 evs, RegInv s0 → RegInv (r
 /-- KF-C20-2 (witness = corpus/C20/kf2_pending_sub_misses_renewal.hist): aa creates x.foo.ol and,
     in the same block, renews foo.ol for 3 blocks -/
 def kf2 : List Ev :=
-  [ .tx (envAt 1 "aa") (.create "aa" "" foo "" true 1500), .commit,
-    .tx (envAt 2 "aa") (.create "aa" "" xfoo "" true 1001),
-    .tx (envAt 2 "aa") (.renew "aa" foo 30), .commit ]
+  [ .tx (envAt 1 "aa") (.create "aa" "" foo "" true 1500 "OLT"), .commit,
+    .tx (envAt 2 "aa") (.create "aa" "" xfoo "" true 1001 "OLT"),
+    .tx (envAt 2 "aa") (.renew "aa" foo 30 "OLT"), .commit ]
 
 /-- the parent now expires at 53, the sub-name still at 50 -/
 theorem pending_sub_misses_renewal :
@@ -172,9 +206,9 @@ example : alookup foo (step (envAt 4 "aa") sOnSale (.update "aa" "cc" foo true "
   decide
 /-- the stranger's attempts change nothing at all -/
 example : (step (envAt 4 "bb") sOnSale (.deleteSub "bb" foo)).2.recs = sOnSale.recs ∧
-    (step (envAt 4 "bb") sOnSale (.renew "bb" foo 30)).2.recs = sOnSale.recs ∧
-    (step (envAt 4 "bb") sOnSale (.sale "bb" foo 200 true)).2.recs = sOnSale.recs ∧
-    (step (envAt 4 "bb") sOnSale (.create "bb" "" ["y", "foo", "ol"] "" true 1001)).2.recs = sOnSale.recs := by decide
+    (step (envAt 4 "bb") sOnSale (.renew "bb" foo 30 "OLT")).2.recs = sOnSale.recs ∧
+    (step (envAt 4 "bb") sOnSale (.sale "bb" foo 200 "OLT" true)).2.recs = sOnSale.recs ∧
+    (step (envAt 4 "bb") sOnSale (.create "bb" "" ["y", "foo", "ol"] "" true 1001 "OLT")).2.recs = sOnSale.recs := by decide
 
 /-
   FULL STATEMENT (false of the code): every change of a record is signed by the *current owner of
@@ -188,8 +222,8 @@ example : (step (envAt 4 "bb") sOnSale (.deleteSub "bb" foo)).2.recs = sOnSale.r
 theorem changes_need_root_owner_partial (env : Env) (s : St) (hi : RegInv s) (tx : Tx) (n : Name)
     (hch : alookup n (step env s tx).2.recs ≠ alookup n s.recs) :
     (∃ p, alookup (rootOf n) s.recs = some p ∧ p.owner = tx.signer) ∨
-    (alookup n s.recs = none ∧ isSub n = false ∧ ∃ b u uo p, tx = .create tx.signer b n u uo p) ∨
-    (∃ b a o d, tx = .purchase b a (rootOf n) o ∧ alookup (rootOf n) s.recs = some d ∧
+    (alookup n s.recs = none ∧ isSub n = false ∧ ∃ b u uo p c, tx = .create tx.signer b n u uo p c) ∨
+    (∃ b a o c d, tx = .purchase b a (rootOf n) o c ∧ alookup (rootOf n) s.recs = some d ∧
       (d.onSale = true ∨ d.expire < env.version)) :=
   rootAuth_of_auth hi (auth_of_change hch)
 
@@ -198,8 +232,8 @@ theorem changes_need_root_owner_reachable_partial (s0 : St) (h0 : s0.recs = []) 
     (hs : histSees s0 evs = true) (env : Env) (tx : Tx) (n : Name)
     (hch : alookup n (step env (run s0 evs) tx).2.recs ≠ alookup n (run s0 evs).recs) :
     (∃ p, alookup (rootOf n) (run s0 evs).recs = some p ∧ p.owner = tx.signer) ∨
-    (alookup n (run s0 evs).recs = none ∧ isSub n = false ∧ ∃ b u uo p, tx = .create tx.signer b n u uo p) ∨
-    (∃ b a o d, tx = .purchase b a (rootOf n) o ∧ alookup (rootOf n) (run s0 evs).recs = some d ∧
+    (alookup n (run s0 evs).recs = none ∧ isSub n = false ∧ ∃ b u uo p c, tx = .create tx.signer b n u uo p c) ∨
+    (∃ b a o c d, tx = .purchase b a (rootOf n) o c ∧ alookup (rootOf n) (run s0 evs).recs = some d ∧
       (d.onSale = true ∨ d.expire < env.version)) :=
   changes_need_root_owner_partial env _ (inv_run evs (genesis_inv s0 h0).1 hs) tx n hch
 
@@ -216,36 +250,37 @@ theorem stale_sub_changed_by_previous_owner :
       ≠ alookup xfoo (run genesis kf1).recs ∧
     (step (envAt 4 "bb") (run genesis kf1) (.update "bb" "bb" xfoo true "" true)).1 = .fail .notOwner := by decide
 
-/-- DOMAIN_SEND is a payment to the name's beneficiary: the registry is untouched, the sender pays
-    amount + fee, the beneficiary (not the owner) receives the amount -/
-theorem send_pays_beneficiary_keeps_registry (env : Env) (s s' : St) (f : Addr) (n : Name) (amt : Int)
-    (h : step env s (.send f n amt) = (.ok, s')) :
-    s'.recs = s.recs ∧ ∃ d g, alookup n s.recs = some d ∧ env.fee = .used g ∧ 0 ≤ amt ∧
+/-- DOMAIN_SEND is a payment to the name's beneficiary in any registered currency `c`: the registry
+    is untouched, the sender (who signed) pays amount (+ fee in the chain currency), the beneficiary
+    (not the owner) receives the amount -/
+theorem send_pays_beneficiary_keeps_registry (env : Env) (s s' : St) (f : Addr) (n : Name) (amt : Int) (c : Cur)
+    (h : step env s (.send f n amt c) = (.ok, s')) :
+    s'.recs = s.recs ∧ env.payer = f ∧ ∃ d g, alookup n s.recs = some d ∧ env.fee = .used g ∧ 0 ≤ amt ∧
       d.active = true ∧ env.version < d.expire ∧
       s'.pool = s.pool + env.feePrice * g ∧
-      ∀ x, bal s'.bals x = bal s.bals x - (if x = f then amt else 0) + (if x = d.benef then amt else 0)
-                             - (if x = env.payer then env.feePrice * g else 0) := by
-  obtain ⟨s1, h1, h2⟩ := step_ok h
+      ∀ x : Acct, bal s'.bals x = bal s.bals x - (if x = (f, c) then amt else 0) + (if x = (d.benef, c) then amt else 0)
+                             - (if x = (env.payer, env.olt) then env.feePrice * g else 0) := by
+  obtain ⟨hv, s1, h1, h2⟩ := step_ok h
   obtain ⟨g, hg, hfd, hfp, hfr, _⟩ := feeStep_ok h2
   obtain ⟨d, b1, hd, hamt, _, hact, _, hdb, hb, hrecs, _, hpool⟩ := runSend_ok h1
-  refine ⟨by rw [hfr, hrecs], d, g, hd, hg, hamt, ?_, ?_, by rw [hfp, hpool], fun x => ?_⟩
+  refine ⟨by rw [hfr, hrecs], (validate_ok hv).1, d, g, hd, hg, hamt, ?_, ?_, by rw [hfp, hpool], fun x => ?_⟩
   · simp [activeAt] at hact; exact hact.1
   · simp [activeAt] at hact; exact hact.2
   · rw [(bal_debit hfd x).1, hb, bal_credit, (bal_debit hdb x).1]
 
-example : (step (envAt 5 "bb") sOnSale (.send "bb" xfoo 70)).1 = .ok ∧ bal (step (envAt 5 "bb") sOnSale (.send "bb" xfoo 70)).2.bals "cc" = 100070 ∧
-    bal (step (envAt 5 "bb") sOnSale (.send "bb" xfoo 70)).2.bals "aa" = bal sOnSale.bals "aa" := by decide
+example : (step (envAt 5 "bb") sOnSale (.send "bb" xfoo 70 "OLT")).1 = .ok ∧ bal (step (envAt 5 "bb") sOnSale (.send "bb" xfoo 70 "OLT")).2.bals ("cc", "OLT") = 100070 ∧
+    bal (step (envAt 5 "bb") sOnSale (.send "bb" xfoo 70 "OLT")).2.bals ("aa", "OLT") = bal sOnSale.bals ("aa", "OLT") := by decide
 
 /-! ## 3. A purchase pays the previous owner the asking price, or the base price for an expired name -/
 
 /-- only a name that is on sale or expired can be bought; the buyer becomes the owner, the sale
     flag is cleared, and the sub-names the iteration sees are deleted -/
-theorem purchase_needs_sale_or_expiry (env : Env) (s s' : St) (b a : Addr) (n : Name) (o : Int)
-    (h : step env s (.purchase b a n o) = (.ok, s')) :
+theorem purchase_needs_sale_or_expiry (env : Env) (s s' : St) (b a : Addr) (n : Name) (o : Int) (c : Cur)
+    (h : step env s (.purchase b a n o c) = (.ok, s')) :
     ∃ d d', alookup n s.recs = some d ∧ (d.onSale = true ∨ d.expire < env.version) ∧ isSub n = false ∧
       alookup n s'.recs = some d' ∧ d'.owner = b ∧ d'.onSale = false ∧ d'.salePrice = none ∧ d'.benef = a ∧
       ∀ k, visSub s.tree n k = true → alookup k s'.recs = none := by
-  obtain ⟨s1, h1, h2⟩ := step_ok h
+  obtain ⟨hv, s1, h1, h2⟩ := step_ok h
   obtain ⟨_, _, _, _, hfr, _⟩ := feeStep_ok h2
   obtain ⟨d, hd, hsub, hfs, _, _, hbr⟩ := runPurchase_ok h1
   have hrecs : ∃ x, s1.recs = upsert (eraseSel (visSub s.tree n) s.recs) n (resetAfterSale d b a x env.version) := by
@@ -261,52 +296,63 @@ theorem purchase_needs_sale_or_expiry (env : Env) (s s' : St) (b a : Addr) (n : 
     omega
   rw [hfr, hrecs, alookup_upsert_ne _ _ _ _ hkn, alookup_eraseSel, if_pos hk]
 
-/-- a name on sale (and not expired): the offer covers the asking price, exactly the asking price
-    goes to the previous owner, the buyer pays the whole offer (+ fee), the remainder goes to the
-    fee pool.  Stated for every address `x`, so aliasing (owner buys own name) is covered. -/
-theorem purchase_pays_owner_at_least_price (env : Env) (s s' : St) (b a : Addr) (n : Name) (o : Int) (d : Domain)
-    (h : step env s (.purchase b a n o) = (.ok, s')) (hd : alookup n s.recs = some d)
+/-- a name on sale (and not expired): the buyer signed, pays in the chain currency, the offer covers
+    the asking price, exactly the asking price goes to the previous owner, the buyer pays the whole
+    offer (+ fee), the remainder goes to the fee pool.  Stated for every balance record `x`, so
+    aliasing (owner buys own name) is covered; no other balance moves. -/
+theorem purchase_pays_owner_at_least_price (env : Env) (s s' : St) (b a : Addr) (n : Name) (o : Int) (c : Cur) (d : Domain)
+    (h : step env s (.purchase b a n o c) = (.ok, s')) (hd : alookup n s.recs = some d)
     (hsale : d.onSale = true) (hlive : env.version ≤ d.expire) :
+    c = env.olt ∧ env.payer = b ∧ env.sigValid = true ∧
     ∃ price g, d.salePrice = some price ∧ price ≤ o ∧ env.fee = .used g ∧
       s'.pool = s.pool + (o - price) + env.feePrice * g ∧
-      ∀ x, bal s'.bals x = bal s.bals x + (if x = d.owner then price else 0) - (if x = b then o else 0)
-                             - (if x = env.payer then env.feePrice * g else 0) := by
-  obtain ⟨s1, h1, h2⟩ := step_ok h
+      ∀ x : Acct, bal s'.bals x = bal s.bals x + (if x = (d.owner, env.olt) then price else 0)
+                             - (if x = (b, env.olt) then o else 0) - (if x = (b, env.olt) then env.feePrice * g else 0) := by
+  obtain ⟨hv, s1, h1, h2⟩ := step_ok h
+  obtain ⟨hpay, hsig, _, hk⟩ := validate_ok hv
+  have hc : c = env.olt := (validateKind_ok hk).1 c rfl
+  have hpay' : env.payer = b := hpay
+  subst hc
   obtain ⟨g, hg, hfd, hfp, _, _⟩ := feeStep_ok h2
   obtain ⟨d0, hd0, _, _, _, _, hbr⟩ := runPurchase_ok h1
   rw [hd] at hd0; cases hd0
   rcases hbr with ⟨_, _, price, b0, hsp, hle, hdb0, hdb2, hpool, _⟩ | ⟨hn, _⟩
-  · refine ⟨price, g, hsp, hle, hg, by rw [hfp, hpool], fun x => ?_⟩
-    rw [(bal_debit hfd x).1, (bal_debit hdb2 x).1, bal_credit, (bal_debit hdb0 x).1]
-    by_cases hx : x = b <;> simp [hx] <;> omega
+  · refine ⟨rfl, hpay', hsig, price, g, hsp, hle, hg, by rw [hfp, hpool], fun x => ?_⟩
+    rw [(bal_debit hfd x).1, (bal_debit hdb2 x).1, bal_credit, (bal_debit hdb0 x).1, hpay']
+    by_cases hx : x = (b, env.olt) <;> simp [hx] <;> omega
   · exact absurd ⟨hlive, hsale⟩ hn
 
-example : (step (envAt 5 "bb") sOnSale (.purchase "bb" "bb" foo 350)).1 = .ok ∧
-    bal (step (envAt 5 "bb") sOnSale (.purchase "bb" "bb" foo 350)).2.bals "aa" = bal sOnSale.bals "aa" + 200 ∧ bal (step (envAt 5 "bb") sOnSale (.purchase "bb" "bb" foo 350)).2.bals "bb" = 100000 - 350 - 6 := by decide
-example : (step (envAt 5 "bb") sOnSale (.purchase "bb" "bb" foo 199)).1 = .fail .offerTooLow := by decide
+example : (step (envAt 5 "bb") sOnSale (.purchase "bb" "bb" foo 350 "OLT")).1 = .ok ∧
+    bal (step (envAt 5 "bb") sOnSale (.purchase "bb" "bb" foo 350 "OLT")).2.bals ("aa", "OLT") = bal sOnSale.bals ("aa", "OLT") + 200 ∧ bal (step (envAt 5 "bb") sOnSale (.purchase "bb" "bb" foo 350 "OLT")).2.bals ("bb", "OLT") = 100000 - 350 - 6 := by decide
+example : (step (envAt 5 "bb") sOnSale (.purchase "bb" "bb" foo 199 "OLT")).1 = .fail .offerTooLow := by decide
 
-/-- an expired name (on sale or not): the offer covers the base price, the whole offer goes to the
-    fee pool, nobody else is paid -/
-theorem expired_purchase_pays_base (env : Env) (s s' : St) (b a : Addr) (n : Name) (o : Int) (d : Domain)
-    (h : step env s (.purchase b a n o) = (.ok, s')) (hd : alookup n s.recs = some d)
+/-- an expired name (on sale or not): the buyer signed, pays in the chain currency, the offer
+    covers the base price, the whole offer goes to the fee pool, nobody else is paid -/
+theorem expired_purchase_pays_base (env : Env) (s s' : St) (b a : Addr) (n : Name) (o : Int) (c : Cur) (d : Domain)
+    (h : step env s (.purchase b a n o c) = (.ok, s')) (hd : alookup n s.recs = some d)
     (hexp : d.expire < env.version) :
-    env.opts.base ≤ o ∧ ∃ g, env.fee = .used g ∧ s'.pool = s.pool + o + env.feePrice * g ∧
-      ∀ x, bal s'.bals x = bal s.bals x - (if x = b then o else 0) - (if x = env.payer then env.feePrice * g else 0) := by
-  obtain ⟨s1, h1, h2⟩ := step_ok h
+    c = env.olt ∧ env.payer = b ∧ env.opts.base ≤ o ∧ ∃ g, env.fee = .used g ∧ s'.pool = s.pool + o + env.feePrice * g ∧
+      ∀ x : Acct, bal s'.bals x = bal s.bals x - (if x = (b, env.olt) then o else 0)
+                             - (if x = (b, env.olt) then env.feePrice * g else 0) := by
+  obtain ⟨hv, s1, h1, h2⟩ := step_ok h
+  obtain ⟨hpay, _, _, hk⟩ := validate_ok hv
+  have hc : c = env.olt := (validateKind_ok hk).1 c rfl
+  have hpay' : env.payer = b := hpay
+  subst hc
   obtain ⟨g, hg, hfd, hfp, _, _⟩ := feeStep_ok h2
   obtain ⟨d0, hd0, _, _, _, _, hbr⟩ := runPurchase_ok h1
   rw [hd] at hd0; cases hd0
   rcases hbr with ⟨hlive, _⟩ | ⟨_, hbase, hdb, hpool, _⟩
   · omega
-  · refine ⟨hbase, g, hg, by rw [hfp, hpool], fun x => ?_⟩
-    rw [(bal_debit hfd x).1, (bal_debit hdb x).1]
+  · refine ⟨rfl, hpay', hbase, g, hg, by rw [hfp, hpool], fun x => ?_⟩
+    rw [(bal_debit hfd x).1, (bal_debit hdb x).1, hpay']
 
 /-- foo.ol (expiry 50) seen from block 60: anybody may take it for at least the base price -/
-example : (step (envAt 60 "cc") sOnSale (.purchase "cc" "" foo 1040)).1 = .ok ∧
-    (alookup foo (step (envAt 60 "cc") sOnSale (.purchase "cc" "" foo 1040)).2.recs).map (·.owner) = some "cc" ∧ bal (step (envAt 60 "cc") sOnSale (.purchase "cc" "" foo 1040)).2.bals "aa" = bal sOnSale.bals "aa" := by decide
-example : (step (envAt 60 "cc") sOnSale (.purchase "cc" "" foo 999)).1 = .fail .priceTooLow := by decide
+example : (step (envAt 60 "cc") sOnSale (.purchase "cc" "" foo 1040 "OLT")).1 = .ok ∧
+    (alookup foo (step (envAt 60 "cc") sOnSale (.purchase "cc" "" foo 1040 "OLT")).2.recs).map (·.owner) = some "cc" ∧ bal (step (envAt 60 "cc") sOnSale (.purchase "cc" "" foo 1040 "OLT")).2.bals ("aa", "OLT") = bal sOnSale.bals ("aa", "OLT") := by decide
+example : (step (envAt 60 "cc") sOnSale (.purchase "cc" "" foo 999 "OLT")).1 = .fail .priceTooLow := by decide
 /-- neither on sale nor expired: not for sale at any price -/
-example : (step (envAt 2 "bb") (run genesis (setup.take 2)) (.purchase "bb" "" foo 999999)).1 = .fail .notForSale := by decide
+example : (step (envAt 2 "bb") (run genesis (setup.take 2)) (.purchase "bb" "" foo 999999 "OLT")).1 = .fail .notForSale := by decide
 
 /-! ## 4. Expiry is set / extended by exactly the blocks the payment buys -/
 
@@ -323,13 +369,13 @@ def InInt64 (x : Int) : Prop := -9223372036854775808 ≤ x ∧ x < 9223372036854
 -/
 
 /-- create of a non-sub name: expiry = state version + (price − base) / perBlock -/
-theorem expiry_exact_create_partial (env : Env) (s s' : St) (o b : Addr) (n : Name) (u : String) (uo : Bool) (p : Int)
-    (h : step env s (.create o b n u uo p) = (.ok, s')) (hns : isSub n = false)
+theorem expiry_exact_create_partial (env : Env) (s s' : St) (o b : Addr) (n : Name) (u : String) (uo : Bool) (p : Int) (c : Cur)
+    (h : step env s (.create o b n u uo p c) = (.ok, s')) (hns : isSub n = false)
     (hq : InInt64 (blocksBought p env.opts.base env.opts.perBlock))
     (hsum : InInt64 (env.version + blocksBought p env.opts.base env.opts.perBlock)) :
     ∃ d, alookup n s'.recs = some d ∧
       d.expire = env.version + (p - env.opts.base) / env.opts.perBlock ∧ env.opts.base < p := by
-  obtain ⟨s1, h1, h2⟩ := step_ok h
+  obtain ⟨hv, s1, h1, h2⟩ := step_ok h
   obtain ⟨_, _, _, _, hfr, _⟩ := feeStep_ok h2
   obtain ⟨hp, _, _, _, _, _, _, d, hrecs, _, _, _, hexp⟩ := runCreate_ok h1
   simp only [hns, Bool.false_eq_true, if_false] at hexp
@@ -337,16 +383,16 @@ theorem expiry_exact_create_partial (env : Env) (s s' : St) (o b : Addr) (n : Na
   rw [hexp.2, wrap64_id _ hq.1 hq.2, wrap64_id _ hsum.1 hsum.2]
   rfl
 
-example : (step (envAt 7 "bb") genesis (.create "bb" "" foo "" true 1059)).1 = .ok ∧
-    (alookup foo (step (envAt 7 "bb") genesis (.create "bb" "" foo "" true 1059)).2.recs).map (·.expire) = some (6 + 5) := by decide
+example : (step (envAt 7 "bb") genesis (.create "bb" "" foo "" true 1059 "OLT")).1 = .ok ∧
+    (alookup foo (step (envAt 7 "bb") genesis (.create "bb" "" foo "" true 1059 "OLT")).2.recs).map (·.expire) = some (6 + 5) := by decide
 
 /-- a sub-name is created with its parent's expiry height, whatever is paid above the base price,
     and only by the parent's owner -/
-theorem sub_created_with_parent_expiry (env : Env) (s s' : St) (o b : Addr) (n : Name) (u : String) (uo : Bool) (p : Int)
-    (h : step env s (.create o b n u uo p) = (.ok, s')) (hsub : isSub n = true) :
+theorem sub_created_with_parent_expiry (env : Env) (s s' : St) (o b : Addr) (n : Name) (u : String) (uo : Bool) (p : Int) (c : Cur)
+    (h : step env s (.create o b n u uo p c) = (.ok, s')) (hsub : isSub n = true) :
     ∃ d par, alookup n s'.recs = some d ∧ alookup (parentOf n) s.recs = some par ∧ par.owner = o ∧
       d.owner = o ∧ d.expire = par.expire := by
-  obtain ⟨s1, h1, h2⟩ := step_ok h
+  obtain ⟨hv, s1, h1, h2⟩ := step_ok h
   obtain ⟨_, _, _, _, hfr, _⟩ := feeStep_ok h2
   obtain ⟨_, _, _, _, _, _, _, d, hrecs, hown, _, _, hexp⟩ := runCreate_ok h1
   simp only [hsub, if_true] at hexp
@@ -357,14 +403,14 @@ example : (alookup xfoo sOnSale.recs).map (·.expire) = some 50 ∧ (alookup foo
 
 /-- renew: expiry += price / perBlock, only by the owner, only before expiry; every committed
     sub-name moves with it (pending ones: KF-C20-2) -/
-theorem expiry_exact_renew_partial (env : Env) (s s' : St) (o : Addr) (n : Name) (p : Int)
-    (h : step env s (.renew o n p) = (.ok, s')) :
+theorem expiry_exact_renew_partial (env : Env) (s s' : St) (o : Addr) (n : Name) (p : Int) (c : Cur)
+    (h : step env s (.renew o n p c) = (.ok, s')) :
     ∃ d d', alookup n s.recs = some d ∧ d.owner = o ∧ env.version ≤ d.expire ∧ alookup n s'.recs = some d' ∧
       d'.owner = o ∧
       (InInt64 (p / env.opts.perBlock) → InInt64 (d.expire + p / env.opts.perBlock) →
         d'.expire = d.expire + p / env.opts.perBlock ∧
         ∀ k dk, visSub s.tree n k = true → alookup k s'.recs = some dk → dk.expire = d'.expire) := by
-  obtain ⟨s1, h1, h2⟩ := step_ok h
+  obtain ⟨hv, s1, h1, h2⟩ := step_ok h
   obtain ⟨_, _, _, _, hfr, _⟩ := feeStep_ok h2
   obtain ⟨d, hd, hown, _, _, _, hexp, _, _, _, hrecs⟩ := runRenew_ok h1
   have hnn : visSub s.tree n n = false := by simp [visSub, isSubOf_irrefl]
@@ -384,18 +430,18 @@ theorem expiry_exact_renew_partial (env : Env) (s s' : St) (o : Addr) (n : Name)
       simp only [Option.map_some, hk, if_true, Option.some.injEq] at hdk
       rw [← hdk]
 
-example : (step (envAt 9 "aa") sOnSale (.renew "aa" foo 45)).1 = .ok ∧
-    (alookup foo (step (envAt 9 "aa") sOnSale (.renew "aa" foo 45)).2.recs).map (·.expire) = some 54 ∧ (alookup xfoo (step (envAt 9 "aa") sOnSale (.renew "aa" foo 45)).2.recs).map (·.expire) = some 54 := by decide
-example : (step (envAt 60 "aa") sOnSale (.renew "aa" foo 45)).1 = .fail .expired := by decide
+example : (step (envAt 9 "aa") sOnSale (.renew "aa" foo 45 "OLT")).1 = .ok ∧
+    (alookup foo (step (envAt 9 "aa") sOnSale (.renew "aa" foo 45 "OLT")).2.recs).map (·.expire) = some 54 ∧ (alookup xfoo (step (envAt 9 "aa") sOnSale (.renew "aa" foo 45 "OLT")).2.recs).map (·.expire) = some 54 := by decide
+example : (step (envAt 60 "aa") sOnSale (.renew "aa" foo 45 "OLT")).1 = .fail .expired := by decide
 
 /-- purchase of a name on sale: expiry = max(old expiry, version) + (offer − asking price) / perBlock -/
-theorem expiry_exact_purchase_on_sale_partial (env : Env) (s s' : St) (b a : Addr) (n : Name) (o : Int) (d : Domain)
-    (price : Int) (h : step env s (.purchase b a n o) = (.ok, s')) (hd : alookup n s.recs = some d)
+theorem expiry_exact_purchase_on_sale_partial (env : Env) (s s' : St) (b a : Addr) (n : Name) (o : Int) (c : Cur) (d : Domain)
+    (price : Int) (h : step env s (.purchase b a n o c) = (.ok, s')) (hd : alookup n s.recs = some d)
     (hsale : d.onSale = true) (hlive : env.version ≤ d.expire) (hp : d.salePrice = some price)
     (hq : InInt64 ((o - price) / env.opts.perBlock))
     (hsum : InInt64 (d.expire + (o - price) / env.opts.perBlock)) :
     ∃ d', alookup n s'.recs = some d' ∧ d'.expire = d.expire + (o - price) / env.opts.perBlock := by
-  obtain ⟨s1, h1, h2⟩ := step_ok h
+  obtain ⟨hv, s1, h1, h2⟩ := step_ok h
   obtain ⟨_, _, _, _, hfr, _⟩ := feeStep_ok h2
   obtain ⟨d0, hd0, _, _, _, _, hbr⟩ := runPurchase_ok h1
   rw [hd] at hd0; cases hd0
@@ -410,17 +456,17 @@ theorem expiry_exact_purchase_on_sale_partial (env : Env) (s s' : St) (b a : Add
     exact wrap64_id _ hsum.1 hsum.2
   · exact absurd ⟨hlive, hsale⟩ hn
 
-example : (step (envAt 5 "bb") sOnSale (.purchase "bb" "bb" foo 350)).1 = .ok ∧
-    (alookup foo (step (envAt 5 "bb") sOnSale (.purchase "bb" "bb" foo 350)).2.recs).map (·.expire) = some (50 + 15) := by decide
+example : (step (envAt 5 "bb") sOnSale (.purchase "bb" "bb" foo 350 "OLT")).1 = .ok ∧
+    (alookup foo (step (envAt 5 "bb") sOnSale (.purchase "bb" "bb" foo 350 "OLT")).2.recs).map (·.expire) = some (50 + 15) := by decide
 
 /-- purchase of an expired name: expiry = version + (offer − base) / perBlock -/
-theorem expiry_exact_purchase_expired_partial (env : Env) (s s' : St) (b a : Addr) (n : Name) (o : Int) (d : Domain)
-    (h : step env s (.purchase b a n o) = (.ok, s')) (hd : alookup n s.recs = some d)
+theorem expiry_exact_purchase_expired_partial (env : Env) (s s' : St) (b a : Addr) (n : Name) (o : Int) (c : Cur) (d : Domain)
+    (h : step env s (.purchase b a n o c) = (.ok, s')) (hd : alookup n s.recs = some d)
     (hexp : d.expire < env.version)
     (hq : InInt64 (blocksBought o env.opts.base env.opts.perBlock))
     (hsum : InInt64 (env.version + blocksBought o env.opts.base env.opts.perBlock)) :
     ∃ d', alookup n s'.recs = some d' ∧ d'.expire = env.version + (o - env.opts.base) / env.opts.perBlock := by
-  obtain ⟨s1, h1, h2⟩ := step_ok h
+  obtain ⟨hv, s1, h1, h2⟩ := step_ok h
   obtain ⟨_, _, _, _, hfr, _⟩ := feeStep_ok h2
   obtain ⟨d0, hd0, _, _, _, _, hbr⟩ := runPurchase_ok h1
   rw [hd] at hd0; cases hd0
@@ -432,17 +478,17 @@ theorem expiry_exact_purchase_expired_partial (env : Env) (s s' : St) (b a : Add
     rw [wrap64_id _ hq.1 hq.2]
     exact wrap64_id _ hsum.1 hsum.2
 
-example : (step (envAt 60 "cc") sOnSale (.purchase "cc" "" foo 1040)).1 = .ok ∧
-    (alookup foo (step (envAt 60 "cc") sOnSale (.purchase "cc" "" foo 1040)).2.recs).map (·.expire) = some (59 + 4) := by decide
+example : (step (envAt 60 "cc") sOnSale (.purchase "cc" "" foo 1040 "OLT")).1 = .ok ∧
+    (alookup foo (step (envAt 60 "cc") sOnSale (.purchase "cc" "" foo 1040 "OLT")).2.recs).map (·.expire) = some (59 + 4) := by decide
 
 /-- KF-C20-3 (witness = corpus/C20/kf3_expiry_wraps_int64.hist): with perBlockFees = 1 a payment of
     10^19 above the base price buys 10^19 blocks, which `Int64()` turns into a negative number: the
     name is registered already expired (expiry −8446744073709551616 + version) -/
 theorem expiry_wraps_int64 :
     let env : Env := { envAt 1 "aa" with opts := ⟨1000, 1, ["ol"]⟩ }
-    let s : St := { St.empty with bals := [("aa", 20000000000000000000000)] }
-    (step env s (.create "aa" "" foo "" true 10000000000000001000)).1 = .ok ∧
-    (alookup foo (step env s (.create "aa" "" foo "" true 10000000000000001000)).2.recs).map (·.expire)
+    let s : St := { St.empty with bals := [(("aa", "OLT"), 20000000000000000000000)] }
+    (step env s (.create "aa" "" foo "" true 10000000000000001000 "OLT")).1 = .ok ∧
+    (alookup foo (step env s (.create "aa" "" foo "" true 10000000000000001000 "OLT")).2.recs).map (·.expire)
       = some (-8446744073709551616) := by decide
 
 end OLP.Props.C20
